@@ -27,6 +27,8 @@ TStep ==
     [] E[1] = "clear" ->
          (IF E[6] = "ok" /\ E[4] = <<>> THEN Clear /\ bad' = Common ELSE bad' = Common \cup {"Clear"} /\ UNCHANGED avars)
     [] E[1] = "len" -> bad' = Common \cup Chk(E[3] = Len(dq) /\ E[4] = dq, "Len") /\ UNCHANGED avars
+    (* the consumer took the wake-up token of the front event and has not taken the event yet: one token fewer than events *)
+    [] E[1] = "wait" -> bad' = Chk(E[6] = "ok" /\ E[4] = dq /\ E[5] + 1 = Len(dq), "Wait") /\ UNCHANGED avars
     [] E[1] = "wait_empty" -> bad' = Chk(dq = <<>> /\ E[6] = "raised:Empty" /\ E[4] = dq, "WaitEmpty") /\ UNCHANGED avars
 TNext == /\ bad = {} /\ l <= Len(T.ops) /\ tid' = tid /\ l' = l + 1 /\ n' = n
          /\ TStep
